@@ -7,6 +7,20 @@ HERE = os.path.dirname(os.path.dirname(os.path.abspath(__file__)))
 
 # id -> (category, technique, text, note, design_ref)
 CHECKS = {
+    "C11": (
+        "exploration",
+        "bounded exhaustive enumeration of filter-option sets x predicate vectors through cli.main against the documented filter chain",
+        "Every subset of {-m,-M,--max-n,--max-ee,--max-aer,--discard-casava} x {none,--discard-trimmed,--discard-untrimmed,"
+        "--untrimmed-output} x redirect files on/off x 13 boundary thresholds (length equal to the bound, N count equal to the bound, "
+        "N fraction exactly at the cut-off, expected errors around the bound), single-end; paired-end additionally x --pair-filter "
+        "{unset,any,both,first} x adapters on {both,R1 only,R2 only} x L1:L2 / L1: / :L2 bounds. The corpus has one read per combination "
+        "of (trimmed-length class, N count, expected-error class, CASAVA flag, adapter present) = 576 reads, so every realisable vector "
+        "of predicate outcomes meets every option set. Oracle: first filter of the documented order whose documented criterion holds on "
+        "the fully modified read decides the single destination; every output file is parsed and each read must be exactly there.",
+        "Trusted: vf.refops definitions (C13/C14), adapter matching (C01/C02). Thresholds avoid floating-point ties except exact "
+        "single-value boundaries.",
+        "DESIGN.md section 3, C11",
+    ),
     "C10": (
         "exploration",
         "bounded exhaustive enumeration of operation sequences (option subsets x command-line orders) through cli.main against a step-composition reference",
